@@ -88,8 +88,8 @@ REQUIRED_BOUNDARIES = ["int-edges", "list-edges", "tensor-edges", "slice-edges",
 
 PROP = "C09"
 HEADER = ("Require Import PF.Lib.PySlice PF.Lib.FloatInt PF.Model.Dataset PF.Model.Split "
-          "PF.Model.DatasetRun PF.Model.DatasetHeap.")
-MODEL_TARGETS = ["Model/DatasetRun.vo", "Model/Split.vo", "Model/DatasetHeap.vo"]
+          "PF.Model.DatasetRun PF.Model.DatasetHeap PF.Model.NpShuffle.")
+MODEL_TARGETS = ["Model/DatasetRun.vo", "Model/Split.vo", "Model/DatasetHeap.vo", "Model/NpShuffle.vo"]
 SHARD = 100
 ALLOWED_AXIOMS = ()   # the header line "Axioms:" of Print Assumptions; the entries are PrimFloat./PrimInt63. primitives
 RULE = ("(a) histories: a Dataset of 0-12 rows (row-id feature columns, optional target, split column with an "
@@ -970,7 +970,29 @@ def run_gen_pt(case):
     np.random.seed(case["seed"])
     p = np.arange(case["n"])
     np.random.shuffle(p)
-    return {"calls": out, "perm": [int(x) for x in p.tolist()]}
+    return {"calls": out, "perm": [int(x) for x in p.tolist()], "words": mt_words(case["seed"], case["n"])}
+
+
+def mt_words(seed, n):
+    """the next_uint32() words numpy's seeded legacy generator hands out, as many as the shuffle of n items consumes
+    (counted with the documented rejection rule; Model/NpShuffle.v recomputes the shuffle from them)"""
+    import numpy as np
+    if n < 2:
+        return []
+    words = [int(x) for x in np.random.RandomState(seed).randint(0, 2 ** 32, size=4 * n + 64, dtype=np.uint32)]
+    used = 0
+    for i in range(n - 1, 0, -1):
+        mask = i
+        for sh in (1, 2, 4, 8, 16, 32):
+            mask |= mask >> sh
+        while True:
+            if used >= len(words):
+                return words
+            w = words[used]
+            used += 1
+            if (w & mask) <= i:
+                break
+    return words[:used]
 
 
 # =========================================================================== oracle
@@ -1569,6 +1591,11 @@ def coq_term_gen_pt(case, obs):
     exp = C.copt(a["arr"], lambda l: C.clist(l, C.cz)) if a["ok"] else "None"
     if a["ok"] and (a["ndim"] != 1):
         return None
+    if a["ok"] and "words" in obs and (case["n"] <= 64 or case.get("b")) and (case["prior"] % 2 == 0 or case.get("b")):
+        # (half of the points with n <= 64 and every boundary point, to bound the size of the Coq terms)
+        # numpy's shuffle recomputed by the model (Fisher-Yates + random_interval) from the raw word stream
+        return (f"split_case_fy {C.clist(obs['words'], C.cz)} {C.cz(case['n'])} {C.cz(case['seed'])} "
+                f"{coq_float(case['tr'])} {coq_float(case['vr'])} {C.cbool(case['include_test'])} {exp}")
     perm = C.clist(obs["perm"], C.cz)          # Z literals: unary nat literals of size 1000 are slow to parse
     return (f"split_case {perm} {C.cz(case['n'])} {C.cz(case['seed'])} {coq_float(case['tr'])} "
             f"{coq_float(case['vr'])} {C.cbool(case['include_test'])} {exp}")
